@@ -23,7 +23,7 @@ REQUIRE = {'reads': 300, 'reads_on_reused_reader': 80, 'edits': 80, 'writes_betw
            'results_compared_with_pristine_child': 300, 'results_rechecked_at_end': 200, 'child_processes': 10,
            'reads_scc_reused': 10, 'reads_microdvd_reused': 5, 'reads_sami_multi_language': 10, 'add_style_then_later_read': 10}
 SHARDS = {'quick': 8, 'thorough': 16}
-TIME_LIMIT = {'quick': 400, 'thorough': 3600}
+TIME_LIMIT = {'quick': 1200, 'thorough': 5400}
 FORMATS = ['srt', 'webvtt', 'dfxp', 'sami', 'microdvd', 'scc']
 READER = dict(docs.READERS, scc='SCCReader')
 
